@@ -701,6 +701,14 @@ func c21CheckHistory(c *kit.Case, in c21History) {
 			c21CmpQueue(c, tag+" theta'["+itoa(k)+"]", postTh[k], want.Theta[k])
 		}
 		c21Invariants(c, tag, st, sel, n, true, postXi, postTh)
+		// the transition only READS the prior state (a sibling block or a retry runs on the same
+		// parent state): the prior xi and theta held by the chain state are what they were
+		c21CmpXi(c, tag+" PRIOR xi after the transition", cs.GetPriorStates().GetXi(), st.Xi)
+		if priorTh := cs.GetPriorStates().GetVartheta(); len(priorTh) == c21E {
+			for k := range st.Theta {
+				c21CmpQueue(c, tag+" PRIOR theta["+itoa(k)+"] after the transition", priorTh[k], st.Theta[k])
+			}
+		}
 		// no package accumulated twice while its earlier accumulation is still in xi
 		for _, w := range sel.WStar[:n] {
 			k := c21HashIndex(c, w.PackageSpec.Hash)
